@@ -249,3 +249,29 @@ Definition vp_ok (c : vpcase) : bool :=
 Inductive vcase := VKernel (c : vkcase) | VWrapper (c : vpcase).
 Definition v_ok (c : vcase) : bool :=
   match c with VKernel k => vk_ok k | VWrapper p => vp_ok p end.
+
+(* second comparator, used only on the cases on which the exact one fails:
+   same NaN pattern and |a-b| <= 1e-11*max(1,|b|).  A case that passes this
+   one but not the exact one is counted as rounding drift (a re-association
+   of the floating-point expression), not as a disagreement. *)
+Definition drift_tol : float := 0x1.5fd7fe1796495p-37%float.   (* 1e-11 *)
+
+Definition vk_ok_close (c : vkcase) : bool :=
+  match c_var2h_F64 (vk_P c) (vk_rain c) (vk_maxgap c) (vk_hstart c)
+                    (vk_sec c) (vk_vals c) (vk_hinit c), vk_expect c with
+  | VErr, None => true
+  | VOk h, Some e => list_same (f_close drift_tol) h e
+  | _, _ => false
+  end.
+
+Definition vp_ok_close (c : vpcase) : bool :=
+  match py_var2h_F64 (vp_unit c) (vp_off c) (vp_raw c) (vp_vals c)
+                     (vp_P c) (vp_maxgap c) (vp_rain c), vp_expect c with
+  | PyErr, None => true
+  | PyOk t h, Some (t', e) =>
+      (match e with [] => true | _ => (t =? t')%Z end) && list_same (f_close drift_tol) h e
+  | _, _ => false
+  end.
+
+Definition v_ok_close (c : vcase) : bool :=
+  match c with VKernel k => vk_ok_close k | VWrapper p => vp_ok_close p end.
